@@ -15,6 +15,7 @@ package electreIII
 
 //@ func (*ElectreIIIBiasLIstener).OnCriteriaRemoved
 //@   property C07 C15 C20 C05 C06 C01 C09
+//@   indexsafe
 //@   nopanic
 //@   refines model.BiasListener.OnCriteriaRemoved with validParams=elValid, coversId=elCovers
 //@   ensures [restricted] forall k int :: 0 <= k && k < len(*leftCriteria) ==>
@@ -27,6 +28,7 @@ package electreIII
 
 //@ func (*ElectreIIIBiasLIstener).OnCriterionAdded
 //@   property C07 C18 C20 C05 C06 C01 C09 C19
+//@   indexsafe
 //@   nopanic
 //@   fnparam generator ensures 0.0 <= result && result < 1.0
 //@   refines model.BiasListener.OnCriterionAdded with validParams=elValid, coversId=elCovers, accepts=elAccepts, acceptsAny=elAcceptsAny
@@ -37,6 +39,7 @@ package electreIII
 
 //@ func (*ElectreIIIBiasLIstener).Merge
 //@   property C07 C18 C20 C05 C06 C01 C09 C19
+//@   indexsafe
 //@   refines model.BiasListener.Merge with validParams=elValid, coversId=elCovers, accepts=elAccepts, acceptsAny=elAcceptsAny
 //@   ensures [distillation_kept] result.(electreIIIParams).DistillationFun == params.(electreIIIParams).DistillationFun
 //@   ensures [values] forall q string :: (q in *params.(electreIIIParams).Criteria ==> (*result.(electreIIIParams).Criteria)[q] == (*params.(electreIIIParams).Criteria)[q])
@@ -50,6 +53,7 @@ package electreIII
 
 //@ func (*ElectreIIIBiasLIstener).RankCriteriaAscending
 //@   property C15 C07 C16 C18 C19 C01 C09 C20
+//@   indexsafe
 //@   refines model.BiasListener.RankCriteriaAscending with validParams=elValid, coversId=elCovers, imp=elImportance
 //@   loop 1 invariant [copied] forall k string :: seen(k) ==> (k in weights && weights[k] == (*params.MethodParameters.(electreIIIParams).Criteria)[k].K)
 //@   loop 1 invariant [ctx] fresh(weights) && weights != nil
@@ -67,6 +71,7 @@ package electreIII
 
 //@ func calculateElectreResult
 //@   property C05 C06 C01 C20
+//@   indexsafe
 //@   ensures [not_worse_is_concordant] c1Val >= c2Val ==> result.C == 1.0 && result.D == 0.0
 //@   ensures [indices] fresh(result)
 //@             && result.C == conc(c2Val - c1Val, present(ths.Q), thr(ths.Q, c1Val * model.mult(*c)), present(ths.P), thr(ths.P, c1Val * model.mult(*c)))
@@ -85,6 +90,7 @@ package electreIII
 //@ spec sumKC(rs []*electreIIISingleResult, n int) real = n <= 0 ? 0.0 : sumKC(rs, n - 1) + rs[n - 1].criterion.K * rs[n - 1].result.C
 //@ func calculateTotalC
 //@   property C05 C06 C01 C20
+//@   indexsafe
 //@   ensures [weighted_mean] result == sumKC(*results, len(*results)) / sumK(*results, len(*results))
 //@   loop 1 invariant [partial] weightSum == sumK(*results, iter) && totalC == sumKC(*results, iter)
 
@@ -92,6 +98,7 @@ package electreIII
 //@      n <= 0 ? C : cred(C, rs, n - 1) * (rs[n - 1].result.D > C ? (1.0 - rs[n - 1].result.D) / (1.0 - C) : 1.0)
 //@ func calculateCredibility
 //@   property C05 C06 C01 C20
+//@   indexsafe
 //@   ensures [veto_product] result == cred(C, *results, len(*results))
 //@   loop 1 invariant [partial] credibility == cred(C, *results, iter)
 
@@ -102,6 +109,7 @@ package electreIII
 
 //@ func evaluateAlternativesPair
 //@   property C05 C06 C01 C20
+//@   indexsafe
 //@   ensures [unit_diagonal] i == j ==> result == 1.0
 //@   returnhint [off_diagonal_is_the_credibility] i != j ==> result == eleRes.D
 //@   assumes [definition_of_credV] i != j ==> result == credV(*a1, *a2, criteria, electreCriteria)
@@ -109,6 +117,7 @@ package electreIII
 // the pair's result: C the global concordance, D the credibility derived from it by the veto product
 //@ func electreIIICredibility
 //@   property C05 C06 C01 C20
+//@   indexsafe
 //@   ensures [fresh] fresh(result)
 //@   returnhint [concordance_then_credibility] result.C == c && result.D == d
 
@@ -116,12 +125,14 @@ package electreIII
 
 //@ func Max
 //@   property C05 C06 C20 C01
+//@   indexsafe
 //@   panics_iff [empty] len(*values) == 0
 //@   ensures [maximum] (forall k int :: 0 <= k && k < len(*values) ==> (*values)[k] <= result) && (exists k int :: 0 <= k && k < len(*values) && (*values)[k] == result)
 //@   loop 1 invariant [partial] (forall k int :: 0 <= k && k < iter ==> (*values)[k] <= best) && (exists k int :: 0 <= k && k < len(*values) && (*values)[k] == best) && len(*values) > 0
 
 //@ func minusValuesFrom
 //@   property C05 C06 C20 C01
+//@   indexsafe
 //@   assigns *values
 //@   ensures [mirrored] *values == old(*values) && forall k int :: 0 <= k && k < len(*values) ==> (*values)[k] == value - old((*values)[k])
 //@   loop 1 invariant [done] *values == old(*values) && forall k int :: 0 <= k && k < len(*values) ==> (*values)[k] == (k < iter ? value - old((*values)[k]) : old((*values)[k]))
@@ -175,11 +186,13 @@ package electreIII
 
 //@ func requireBValueAtLeast
 //@   property C05 C20 C07 C01
+//@   indexsafe
 //@   panics_iff [constant_threshold_not_increasing] f.A == 0.0 && f.B != 0.0 && f.B <= current
 //@   ensures [running_bound] result == (f.B > 0.0 ? f.B : current)
 
 //@ func validateParameters
 //@   property C05 C20 C07 C01
+//@   indexsafe
 //@   panics_iff [k_not_positive_or_thresholds_not_increasing] crit.K <= 0.0
 //@             || (crit.Q.A == 0.0 && crit.Q.B != 0.0 && crit.Q.B <= 0.0)
 //@             || (crit.P.A == 0.0 && crit.P.B != 0.0 && crit.P.B <= (crit.Q.B > 0.0 ? crit.Q.B : 0.0))
@@ -195,6 +208,7 @@ package electreIII
 
 //@ func getDistillationFunc
 //@   property C20 C05 C07 C01
+//@   indexsafe
 //@   panics_iff [negative_somewhere_on_the_unit_interval] "electreDistillation" in dm.MethodParameters
 //@             && ((decoded_has(dm.MethodParameters["electreDistillation"], "B") ? decoded_real(dm.MethodParameters["electreDistillation"], "B") : 0.0) < 0.0
 //@                 || (decoded_has(dm.MethodParameters["electreDistillation"], "A") ? decoded_real(dm.MethodParameters["electreDistillation"], "A") : 0.0)
@@ -213,12 +227,14 @@ package electreIII
 // that a distillation is a function of the matrix and the distillation function is assumed ("assumes"); its shape is proved
 //@ func RankAscending
 //@   property C05 C06 C20 C01
+//@   indexsafe
 //@   requires [nonneg_distillation] distillationFun != nil && nonnegOnUnit(*distillationFun)
 //@   requires [square] matrix.Values != nil
 //@   assumes [the_ascending_distillation_of_that_matrix_with_that_function] isAscRank(result, matrix, distillationFun)
 //@   ensures [one_class_number_per_alternative] result != nil && len(*result) == matrix.Values.Size
 //@ func RankDescending
 //@   property C05 C06 C20 C01
+//@   indexsafe
 //@   requires [nonneg_distillation] distillationFun != nil && nonnegOnUnit(*distillationFun)
 //@   requires [square] matrix.Values != nil
 //@   assumes [the_descending_distillation_of_that_matrix_with_that_function] isDescRank(result, matrix, distillationFun)
@@ -226,6 +242,7 @@ package electreIII
 
 //@ func ElectreIII
 //@   property C20 C05 C01 C06
+//@   indexsafe
 //@   requires [nonneg_distillation] distillationFun != nil && nonnegOnUnit(*distillationFun)
 //@   ensures [ranking] result != nil
 //@   ensures [one_entry_per_alternative_given_in_that_order] len(*result) == len(alternatives) && forall a int :: 0 <= a && a < len(alternatives) ==> (*result)[a].Alternative == alternatives[a]
@@ -235,6 +252,7 @@ package electreIII
 
 //@ func (*ElectreIIIPreferenceFunc).Evaluate
 //@   property C20 C05 C06 C01
+//@   indexsafe
 //@   requires [valid_parameters] typeis(dmp.MethodParameters, electreIIIParams) && dmp.MethodParameters.(electreIIIParams).DistillationFun != nil
 //@             && nonnegOnUnit(*dmp.MethodParameters.(electreIIIParams).DistillationFun)
 //@   ensures [ranking] result != nil
@@ -242,11 +260,13 @@ package electreIII
 
 //@ func (*ElectreIIIPreferenceFunc).ParseParams
 //@   property C20 C05 C07 C01
+//@   indexsafe
 //@   ensures [valid_parameters] typeis(result, electreIIIParams) && result.(electreIIIParams).Criteria != nil
 //@             && result.(electreIIIParams).DistillationFun != nil && nonnegOnUnit(*result.(electreIIIParams).DistillationFun)
 
 //@ func extractElectreIIICriteria
 //@   property C20 C05 C07 C01
+//@   indexsafe
 //@   ensures [validated] result != nil && fresh(result) && forall k int :: 0 <= k && k < len(dm.Criteria) ==> dm.Criteria[k].Id in *result && (*result)[dm.Criteria[k].Id].K > 0.0
 //@   loop 1 invariant [validated] forall k int :: 0 <= k && k < iter ==> dm.Criteria[k].Id in electreCriteria && electreCriteria[dm.Criteria[k].Id].K > 0.0
 
@@ -255,22 +275,26 @@ package electreIII
 
 //@ func (*Matrix).At
 //@   property C05 C06 C01 C20
+//@   indexsafe
 //@   panics_iff [out_of_range] row * m.Size + col < 0 || row * m.Size + col >= len(m.Data)
 //@   ensures [row_major] result == m.Data[row * m.Size + col]
 
 // the cut level below the maximal credibility: the largest value strictly below maxCred - s(maxCred)
 //@ func getDistillateMatrix$1
 //@   property C05 C06 C20 C01
+//@   indexsafe
 //@   nopanic
 //@   ensures [next_level_below_the_threshold] result <==> (new < minCredThreshold && new > old)
 // a credibility qualifies iff it is above the cut level and exceeds the reverse credibility by more than s(its own value)
 //@ func getDistillateMatrix$2
 //@   property C05 C06 C20 C01
+//@   indexsafe
 //@   requires 0 <= col * matrix.Size + row && col * matrix.Size + row < len(matrix.Data)
 //@   ensures [qualifies] result <==> (v > minCred && v > matrix.Data[col * matrix.Size + row] + lin(*distillationFun, v))
 
 //@ func calcCoords
 //@   property C05 C06 C01 C20
+//@   indexsafe
 //@   panics_iff [division_by_zero] size == 0
 //@   ensures [row_major] size > 0 && index >= 0 ==> result0 * size + result1 == index && 0 <= result1 && result1 < size
 //@   ensures [quotient_and_remainder] size != 0 ==> result0 == index / size && result1 == index % size
@@ -288,6 +312,7 @@ package electreIII
 // whatever is not better than x is not better than something better than x), no entry is better than the result
 //@ func (*Matrix).FindBest
 //@   property C05 C06 C01 C20
+//@   indexsafe
 //@   fnparam isBetter pure
 //@   panics_iff [empty] m.Size == 0 || len(m.Data) == 0
 //@   ensures [an_entry] exists k int :: 0 <= k && k < len(m.Data) && result == m.Data[k]
@@ -301,17 +326,21 @@ package electreIII
 //@ pred isMin(v real, m Matrix) = (forall k int :: 0 <= k && k < len(m.Data) ==> m.Data[k] >= v) && exists k int :: 0 <= k && k < len(m.Data) && m.Data[k] == v
 //@ func (*Matrix).Max$1
 //@   property C05 C06 C01 C20
+//@   indexsafe
 //@   nopanic
 //@   ensures [greater] result <==> new > old
 //@ func (*Matrix).Min$1
 //@   property C05 C06
+//@   indexsafe
 //@   nopanic
 //@   ensures [lower] result <==> new < old
 //@ func (*Matrix).Max
 //@   property C05 C06 C01 C20
+//@   indexsafe
 //@   ensures [largest_entry] isMax(result, *m)
 //@ func (*Matrix).Min
 //@   property C05 C06
+//@   indexsafe
 //@   ensures [smallest_entry] isMin(result, *m)
 
 // every (outer) distillation starts from the largest credibility of the matrix it works on; an inner one from the cut level
@@ -320,6 +349,7 @@ package electreIII
 //@ spec isDistilled(r *[]int, maxCred real, position int, m *Matrix, f *utils.LinearFunctionParameters, cmp func(int, int) bool, inner bool) bool
 //@ func distillate
 //@   property C05 C06 C01 C20
+//@   indexsafe
 //@   requires [starts_at_the_largest_credibility] !isInner ==> isMax(maxCred, *matrix)
 //@   ensures [positions] result != nil && fresh(result) && fresh(*result)
 //@   ensures [one_position_per_row] len(*result) == matrix.Size
@@ -328,16 +358,19 @@ package electreIII
 //@             || (exists mx real :: isMax(mx, *nextIterationMatrix) && isDistilled(furtherPositions, mx, position + 1, nextIterationMatrix, distillationFun, evaluateFunction, false)))
 //@ func rank
 //@   property C05 C06 C01 C20
+//@   indexsafe
 //@   requires [square] matrix.Values != nil
 //@   ensures [positions] result != nil && fresh(result) && fresh(*result)
 //@   ensures [one_position_per_alternative] len(*result) == matrix.Values.Size
 //@   loop 1 invariant [ctx] fresh(indices)
 //@ func removeDiagonal
 //@   property C05 C06 C01 C20
+//@   indexsafe
 //@   requires [square] matrix.Values != nil
 //@   ensures [same_size] result != nil && result.Size == matrix.Values.Size
 //@ func removeDiagonal$1
 //@   property C05 C06 C01 C20
+//@   indexsafe
 //@   nopanic
 //@   ensures [off_diagonal] result <==> row != col
 // the sub-matrices the recursion works on: their size is what the position lists are sized by
@@ -360,6 +393,7 @@ package electreIII
 //@   loop 1 invariant [in_place] *original == old(*original)
 //@ func updatePositions
 //@   property C05 C06 C01 C20
+//@   indexsafe
 //@   assigns *positions, *bestIndices
 //@   ensures [in_place] *positions == old(*positions) && *bestIndices == old(*bestIndices)
 //@   returnhint [ties_are_split_by_an_inner_distillation_at_the_cut_level_with_the_same_comparison] (bestIndicesNum > 1 && minCred > 0.0) ==>
@@ -368,10 +402,12 @@ package electreIII
 // ---- distillation bookkeeping (C05, C06)
 //@ func greater
 //@   property C05 C06 C01 C20
+//@   indexsafe
 //@   nopanic
 //@   ensures [ascending_pick] result <==> old < new
 //@ func lower
 //@   property C05 C06 C01 C20
+//@   indexsafe
 //@   nopanic
 //@   ensures [descending_pick] result <==> old > new
 
@@ -393,6 +429,7 @@ package electreIII
 // ---- building the credibility matrix (C05, C06): which pair lands in which cell
 //@ func evaluatePair
 //@   property C05 C06 C01 C20
+//@   indexsafe
 //@   ensures [fresh] fresh(result)
 //@   returnhint [first_against_second_on_this_criterion] c1Val == model.signed(*a1, *c) && c2Val == model.signed(*a2, *c) && ths == (*criteriaThresholds)[c.Id]
 //@             && result.criterion != nil && *result.criterion == ths
@@ -404,6 +441,7 @@ package electreIII
 // row i, column j (row-major) holds the credibility of "alternative i outranks alternative j"; 1 on the diagonal
 //@ func evaluateCredibilityMatrix
 //@   property C05 C06 C01 C20
+//@   indexsafe
 //@   ensures [row_major_cells] result != nil && result.Values != nil && result.Values.Size == len(*alternatives) && len(result.Values.Data) == len(*alternatives) * len(*alternatives)
 //@             && forall i int, j int :: 0 <= i && i < len(*alternatives) && 0 <= j && j < len(*alternatives) ==>
 //@                  result.Values.Data[i * len(*alternatives) + j] == (i == j ? 1.0 : credV((*alternatives)[i], (*alternatives)[j], criteria, electreCriteria))
@@ -432,6 +470,7 @@ package electreIII
 // the still undecided (zero) positions take the further positions in order; decided ones are kept
 //@ func writePositionsSequentially
 //@   property C05 C06 C01 C20
+//@   indexsafe
 //@   requires [separate_lists] arr(*positions) != arr(*positionsToWrite)
 //@   assigns *positions
 //@   ensures [decided_kept] *positions == old(*positions) && forall i int :: 0 <= i && i < len(*positions) && old((*positions)[i]) != 0 ==> (*positions)[i] == old((*positions)[i])
@@ -455,15 +494,18 @@ package electreIII
 //@   loop 1 invariant [counts_so_far] forall g int :: 0 <= g && g < groupsNumber ==> groups[g] == gcount(m.Data, m.Size, groupEvaluator, predicate, g, iter)
 //@ func (*Matrix).MatchesInRow$1
 //@   property C05 C06 C01 C20
+//@   indexsafe
 //@   nopanic
 //@   ensures [by_row] result == row
 //@ func (*Matrix).MatchesInColumn$1
 //@   property C05 C06 C01 C20
+//@   indexsafe
 //@   nopanic
 //@   ensures [by_column] result == col
 
 //@ func NewMatrix
 //@   property C05 C06
+//@   indexsafe
 //@   ensures [square] fresh(result) && result.Size == len(*values) && len(result.Data) == len(*values) * len(*values)
 //@   loop 1 invariant [ctx] fresh(data) && len(data) == size * size && size == len(*values)
 
@@ -497,12 +539,14 @@ package electreIII
 // ---- registered names (what a request must say to select this object; what error messages list)
 //@ func (*ElectreIIIBiasLIstener).Identifier
 //@   property C07 C20 C01 C03 C04 C05 C06 C08 C09 C11 C12 C13 C14 C15 C16 C17 C18 C19
+//@   indexsafe
 //@   nopanic
 //@   ensures [name] result == "electreIII"
 
 // ---- registered names (what a request must say to select this object; what error messages list)
 //@ func (*ElectreIIIPreferenceFunc).Identifier
 //@   property C05 C06 C20 C01 C03 C04 C07 C08 C09 C11 C12 C13 C14 C15 C16 C17 C18 C19
+//@   indexsafe
 //@   nopanic
 //@   ensures [name] result == "electreIII"
 
@@ -510,18 +554,21 @@ package electreIII
 // rowcount / colcount are gcount with an evaluator that answers the row resp. the column (any such evaluator: it is quantified)
 //@ func (*Matrix).MatchesInRow
 //@   property C05 C06 C01 C20
+//@   indexsafe
 //@   fnparam predicate pure
 //@   ensures [one_count_per_row] fresh(result) && len(result) == m.Size
 //@   ensures [matching_cells_of_the_row] exists ge func(int, int) int :: (forall r int, c int :: apply(ge, r, c) == r)
 //@             && forall g int :: 0 <= g && g < m.Size ==> result[g] == gcount(m.Data, m.Size, ge, predicate, g, len(m.Data))
 //@ func (*Matrix).MatchesInColumn
 //@   property C05 C06 C01 C20
+//@   indexsafe
 //@   fnparam predicate pure
 //@   ensures [one_count_per_column] fresh(result) && len(result) == m.Size
 //@   ensures [matching_cells_of_the_column] exists ge func(int, int) int :: (forall r int, c int :: apply(ge, r, c) == c)
 //@             && forall g int :: 0 <= g && g < m.Size ==> result[g] == gcount(m.Data, m.Size, ge, predicate, g, len(m.Data))
 //@ func computeQuality
 //@   property C05 C06 C01 C20
+//@   indexsafe
 //@   ensures [one_quality_per_alternative] result != nil && fresh(result) && fresh(*result) && len(*result) == matrix.Size
 //@   ensures [positive_cells_in_the_row_minus_positive_cells_in_the_column] exists rowOf func(int, int) int, colOf func(int, int) int ::
 //@             (forall r int, c int :: apply(rowOf, r, c) == r && apply(colOf, r, c) == c)
@@ -531,5 +578,6 @@ package electreIII
 // the parameter schema listed for this method is that of its input struct
 //@ func (*ElectreIIIPreferenceFunc).MethodParameters
 //@   property C20 C05 C06
+//@   indexsafe
 //@   nopanic
 //@   ensures [schema_of_the_methods_parameters] typeis(result, ElectreIIIInputParams)
